@@ -2,6 +2,7 @@
 (* R2 for C16 (all backends): fault schedules applied to every bundled backend variant through its real constructor and an
    in-memory transport.
      send b       a flush request whose map makes b in {0, 1, 3, 9} batches (small per-batch settings; 9: more than one CloudWatch call)
+     sendm b      a dozen flush requests one after the other, each with a context of its own that is never cancelled
      sendc b      a dozen flush requests, one after the other, each with a context that is already cancelled when the call is made
      fail k o     the next k transport operations (HTTP attempts / dials and writes / CloudWatch calls) fail with outcome o:
                   500 | connerr | 429ra (429 with Retry-After 1) | slow (answered 500 after 2 s)
@@ -22,7 +23,10 @@ Core == {
   <<O("send", 3, ""), O("fail", 2, "connerr"), O("send", 1, ""), O("adv", 1, ""), O("send", 0, ""), O("adv", 4, "")>>,
   <<O("fail", 9, "slow"), O("send", 9, ""), O("cancel", 0, ""), O("adv", 4, "")>>,          \* cancelled between the calls of a flush that needs several
   <<O("sendc", 1, ""), O("adv", 1, ""), O("send", 1, "")>>,
-  <<O("fail", 2, "connerr"), O("sendc", 1, ""), O("adv", 4, "")>>
+  <<O("fail", 2, "connerr"), O("sendc", 1, ""), O("adv", 4, "")>>,
+  \* an outage during which more requests arrive than a socket sender's queue holds; the last one is then cancelled
+  <<O("fail", 9, "connerr"), O("fail", 9, "connerr"), O("sendm", 1, ""), O("send", 1, ""), O("cancel", 0, ""), O("adv", 1, "")>>,
+  <<O("fail", 9, "connerr"), O("sendm", 1, ""), O("adv", 1, ""), O("send", 1, ""), O("adv", 1, ""), O("cancel", 0, "")>>
 }
 ASSUME \A c \in Core : PrintT(<<"CASE", ToJson([sched |-> c])>>)
 Init == sched = <<>>
